@@ -171,6 +171,32 @@ func (fr *Frame) applyCall(instr ssa.Instruction, cc *ssa.CallCommon, recv Val, 
 	}
 	if callee.Blocks != nil && ex.P.inRepo[callee] && fr.canInline(callee) {
 		ex.inlined[key] = true
+		// inlined callees: preconditions labelled call-... are obligations of the call site
+		if c := ex.P.callContract(callee); c != nil && c.Props["inline"] {
+			var cs []Clause
+			for _, r := range c.Requires {
+				if strings.HasPrefix(r.Label, "call-") {
+					cs = append(cs, r)
+				}
+			}
+			if len(cs) > 0 {
+				env := ex.newEnv(st, st, fr)
+				env.pkg = contractPkg(c.Func)
+				names := contractParamNames(c, callee.Signature, false)
+				for i, n := range names {
+					if i < len(args) {
+						env.vars[n] = args[i]
+					}
+				}
+				if c.ThisAlias && callee.Signature.Recv() != nil && len(args) > 0 {
+					env.vars["this"] = args[0]
+				}
+				fr.callOrd[key+"/inline"]++
+				for _, r := range cs {
+					fr.obligeClause(st, "pre", fmt.Sprintf("%s#%d/%s", shortKey(key), fr.callOrd[key+"/inline"], r.Label), env, r, nil)
+				}
+			}
+		}
 		_, st2, vals := ex.runFunc(callee, args, free, st, true, fr.depth+1)
 		if st2 == nil {
 			return nil
